@@ -6,8 +6,8 @@ import tempfile
 from lib.core import *
 
 ID = "C11"
-PROPS_FILES = ["Gama/Props/C11.lean", "Gama/Props/C11Lang.lean"]
-LEAN_TARGETS = ["Gama.Props.C11", "Gama.Props.C11Lang"]
+PROPS_FILES = ["Gama/Props/C11.lean", "Gama/Props/C11Lang.lean", "Gama/Props/C11Values.lean"]
+LEAN_TARGETS = ["Gama.Props.C11", "Gama.Props.C11Lang", "Gama.Props.C11Values"]
 DRIVERS = ["drv_gkf"]
 
 LEVEL_TEXT = (
@@ -24,27 +24,42 @@ LEVEL_TEXT = (
     "error() does not leave the handler, theorems (state == s_error <=> located error recorded, absorbing, first error wins, "
     "every <flt> store inside the covariance storage of its moment) and event correspondences against the real parsers "
     "(state, first error, stack depth, iterator offsets after every expat callback).  "
+    "Round 4: the value checks of every process_* (conversion toDouble/toInteger/toIndex/deg2gon, range test, enumeration per attribute; "
+    "required variables, x/y pair rule, constructor refusals d<=0 / from==fs, band<dim per handler) are REGENERATED from the handler bodies "
+    "(statement-level parse; also observation.h, xsd.h) into Gen/GkfValueChecks.lean; the run model Gkf.crun computes the dataOk bit from the "
+    "real attribute strings with the proved literal recognisers and carries the members later checks read (standpoint_id, pp_id, idim/iband, "
+    "observation count, cov_mat_data); it is by construction Gkf.run on computed events (C11_value_run_is_run); theorems: every attribute read "
+    "has a check and only numerically checked values reach a conversion, conversions = literal languages, documented values are accepted "
+    "(generated table vs hand-written documented table by decide), a valid document with documented values is accepted (partial: bookkeeping "
+    "conditions evaluated in the model's context), a malformed number is refused with the index of its element; correspondence: the driver "
+    "gets the real attribute strings of every event and must predict state/error/line itself (only the Cholesky verdict is an input bit).  "
     "Memory safety, termination and the located diagnostic of the real process are NOT "
     "proved: they are explored by running gama-local built with ASan+UBSan on grammar-derived, mutated and truncated inputs.")
 LEVEL_NOTE = (
     "Trusted: Lean kernel; statements in Props/C11.lean; the translator tools/gen/c11_gkf_automaton.py (validated by "
-    "executing its output next to the C++ on every run); harness/c11_gkf.cpp; generators. Value checks inside "
-    "process_*/finish_* are one abstract bit per event in the run model (the bit is taken from the implementation's "
-    "own error message class in the correspondence). expat, atof/atoi, iostream extraction, heap behaviour are outside the model.")
+    "executing its output next to the C++ on every run); harness/c11_gkf.cpp; generators; the hand-written documented value table "
+    "Model/GkfDocValues.lean (from gama-local.xsd, read by no tool). In the value model the only abstract bit left is the positive-definiteness "
+    "verdict of finish_* (taken from the implementation's message in the correspondence); the older event stream with one bit per event is kept. expat, atof/atoi, iostream extraction, heap behaviour are outside the model.")
 TECHNIQUE = ("Lean 4 proof over a model regenerated from the source (translator) + model/implementation correspondence "
              "+ sanitizer-instrumented input search for the runtime clauses")
-RULE = ("documents: grammar-derived (valid values), one structural/attribute/value mutation of those, every (state, tag) "
+RULE = ("documents: per element a valid context with one or two attribute values replaced by strings of the literal languages and their "
+        "complements (floats, integers, d-m-s, range borders, enumerations, ids) or a required attribute dropped; "
+        "grammar-derived (valid values), one structural/attribute/value mutation of those, every (state, tag) "
         "probe, archived inputs, each whole and in 2-chunk splits; distinct by SAX event text; non-trivial = at least 6 "
         "events. literals: every string of length <= 5 (quick) / 6 (thorough) over {0,1,9,+,-,.,e,E,' ',x} plus random "
         "longer ones; distinct by string. cov-mat: dim/band/text variants; distinct by triple. executable runs: distinct by file bytes")
 TRUSTED = ["tools/gen/c11_gkf_automaton.py (mini-parser of gkfparser.cpp/.h; raises TieBroken on anything unrecognised)",
+           "tools/gen/c11_gkf_values.py (statement-level parser of every process_* body, observation.h constructors, xsd.h; normal form "
+           "per attribute + per handler, TieBroken on any statement it does not recognise)",
            "tools/gen/c11_adjres.py, tools/gen/c11_dataparser.py (same, for localnetwork_adjustment_results.{h,cpp} and dataparser*.cpp; "
            "the fixed callbacks startElement/endElement/get_int/... are compared textually with what the run model was written for)",
            "harness/c11_adjres.cpp: includes the header with `private` re-defined (access only) and re-registers expat trampolines "
            "around the real `final` callbacks; members the constructor leaves unassigned are preset (tmp_i == tmp_e)",
            "harness/c11_gkf.cpp: subclass of GKFparser printing expat's events and the protected state/errCode/errString",
            "libexpat (event delivery, well-formedness, line numbers)"]
-MODELLED = ["value checks inside process_*/finish_* (one bit per event)", "expat", "atof/atoi/istringstream number conversion "
+MODELLED = ["the Cholesky (positive definite) test inside finish_* (one input bit per cluster end in Gkf.crun); in Gkf.run all value checks are one bit per event",
+            "literals whose atof is zero/denormal only through the *G2R scaling of a z-angle; toIndex values >= 2^31 (cast undefined in C++; modelled as refused)",
+            "expat", "atof/atoi/istringstream number conversion "
             "(only the accepted language of deg2gon's extractions is modelled, overflow to HUGE_VAL excluded)",
             "memory safety and termination of the C++ process (sanitizer search only)",
             "adjustment-results reader and DataParser: the values stored into the result objects (only control state, error, "
@@ -84,6 +99,70 @@ def translate(ctx):
     if errs:
         raise errs[0]
 
+
+
+# ------------------------------------------------------------------ termination = CPU time, never wall time
+CPU_LIMIT = 20        # seconds of CPU time a run may use: the non-termination criterion (RLIMIT_CPU, soft; SIGXCPU)
+WALL_LIMIT = 900      # generous wall clock; expiring WITHOUT CPU exhaustion only means the machine is loaded
+
+
+def sh_cpu(cmd, cpu=CPU_LIMIT, wall=WALL_LIMIT):
+    """-> (rc, out, err).  rc == "cpu": the process used up its CPU-time limit (reported as non-termination);
+    rc == "wall": the wall clock expired before the CPU limit (load): inconclusive, counted, never a violation.
+    The limit is set by the shell that execs the command (no preexec_fn: these calls run on 16 threads)."""
+    wrapped = ["/bin/sh", "-c", f'ulimit -H -t {cpu + 5}; ulimit -S -t {cpu}; exec "$@"', "sh"] + [str(c) for c in cmd]
+    try:
+        rc, out, err = sh(wrapped, timeout=wall)
+    except subprocess.TimeoutExpired:
+        return "wall", "", ""
+    if rc in (-24, 128 + 24):          # SIGXCPU
+        return "cpu", out, err
+    return rc, out, err
+
+
+def wall_inconclusive(corr, what):
+    corr.count("wall_clock_expired_without_cpu_exhaustion")
+    msg = "wall-clock limit expired without CPU exhaustion (loaded machine): " + what
+    if len(corr.inconclusive) < 20:
+        corr.inconclusive.append(msg)
+
+
+def is_wall_timeout(crash):
+    """run_cases reports a wall-clock expiry of the whole batch as (-9, "timeout") on its first case"""
+    return crash is not None and crash[0] == -9 and crash[1] == "timeout"
+
+
+def decorate_failures(ctx, corr):
+    """every oracle failure carries the label of its input and the first 200 bytes (hex) in `what`/`detail`,
+    and the first few are written to the log as one line each"""
+    if getattr(corr, "_c11_decorated", False):
+        return
+    orig, shown = corr.fail, [0]
+
+    def fail(what, replay, site="", detail=""):
+        lab, hx = "", ""
+        if isinstance(replay, dict):
+            lab = str(replay.get("label") or replay.get("name") or replay.get("file") or "")
+            if replay.get("doc_hex"):
+                hx = str(replay["doc_hex"])[:400]
+            elif isinstance(replay.get("doc"), str):
+                hx = replay["doc"].encode("utf-8", "replace")[:200].hex()
+            elif isinstance(replay.get("doc"), (bytes, bytearray)):
+                hx = bytes(replay["doc"])[:200].hex()
+            elif replay.get("ops") is not None:
+                hx = " ".join(map(str, replay["ops"]))[:200].encode("utf-8", "replace").hex()
+        if lab and lab not in what:
+            what = f"{what} [{lab}]"
+        head = f"[input: {lab or '?'} | first 200 bytes (hex): {hx or '-'}]"
+        detail = head + "\n" + (detail or "")
+        if len(detail) > 3900:
+            detail = detail[:3000 - len(head)] + "\n[...]\n" + detail[-(800 - len(head)):] + "\n" + head
+        orig(what, replay, site, detail)
+        if shown[0] < 10:
+            shown[0] += 1
+            ctx.log("ORACLE-FAILURE:", what[:400], "| site:", site, "| first bytes (hex):", hx[:400] or "-")
+    corr.fail = fail
+    corr._c11_decorated = True
 
 # ------------------------------------------------------------------ documents
 
@@ -390,6 +469,156 @@ def probe_docs():
     return docs
 
 
+
+# ------------------------------------------------------------------ documents that exercise the VALUE checks
+# (gap #8: events carry the real attribute strings; values are drawn from the literal languages AND their complements)
+
+FLOAT_OK = ["1", "+1.5", "-2", ".5", "5.", "1e3", "1E-3", " 7 ", "007", "1e+308", "0", "-0", "0.0", "1e-400", "-1e-400", "12.25",
+            "\t3\n", "1.7976931348623157e308", "100", "0.001", "399.9999", "2.5e0"]
+FLOAT_BAD = ["", " ", "abc", "1e", "1.2.3", "-", "+", "1 1", "1x", "0x10", "NaN", "inf", "1e999", "-1e999", "1,5", "١٢", ".", "e5",
+             "--1", "1e+", ".e1", "1d3", "1.7976931348623159e308", "+-1", "1e 3"]
+INT_POOL = ["5", "-1", "+3", " 2 ", "007", "2147483647", "2147483648", "99999999999", "-", "+", "1.0", "1e2", ""]
+DMS_POOL = ["10-20-30", "10-20-30.5", "-10-20-30", "+0-0-0", "0-0-0", "10-20", "10-20-30-40", "10--20-30", "400-0-0", "1-2-3e2",
+            " 1-2-3 ", "1 -2-3", "-0-0-0.5", "0-0-1e-5", "1-2-", "1-2-x", "2147483648-0-0", "0-61-61"]
+RANGE_POOL = ["0", "-0", "1", "0.99999999999999999999", "0.9999999999999999", "1.0000000000000001", "1.00000000000000000001", "0.5", "2", "-5",
+              "1e-400", "0.95", "1e0", "10e-1", "0.1e1", "9.9e-1"]
+ENUM_POOL = ["xy", "XY", "z", "Z", "xyz", "XYZ", "XYz", "xyZ", "xY", "Xy", "XY ", "", "ne", "sw", "NE", "left-handed", "right-handed", "400",
+             "360", "200", "apriori", "aposteriori", "gso", "svd", "nonsense", "http://www.gnu.org/software/gama/gama-local", "http://x"]
+ID_POOL = ["A", "B", "C", " A ", "A  B", "", "1", "01", "é"]
+ALL_VALUES = FLOAT_OK + FLOAT_BAD + INT_POOL + DMS_POOL + RANGE_POOL + ENUM_POOL[:12] + ID_POOL
+
+FLOAT_RX = re.compile(r"[ \t\n\r\f\v]*[+-]?(\d+\.?\d*|\.\d+)([eE][+-]?\d+)?[ \t\n\r\f\v]*\Z")
+DMS_RX = re.compile(r"[ \t\n\r\f\v]*[+-]?\d+-\d+-\d+(\.\d*)?([eE][+-]?\d+)?[ \t\n\r\f\v]*\Z")
+# documented type of the attribute (gama-local.xsd): 'double' | 'angle' (NMTOKEN: gons or d-m-s)
+DOC_NUMERIC = {}
+for _t, _as in {"network": ["epoch"], "parameters": ["sigma-apr", "conf-pr", "tol-abs"],
+                "points-observations": ["direction-stdev", "angle-stdev", "zenith-angle-stdev", "azimuth-stdev"],
+                "point": ["x", "y", "z"], "obs": ["orientation", "from_dh"],
+                "direction": ["stdev", "from_dh", "to_dh"], "distance": ["val", "stdev", "from_dh", "to_dh"],
+                "angle": ["stdev", "from_dh", "bs_dh", "fs_dh"], "s-distance": ["val", "stdev", "from_dh", "to_dh"],
+                "z-angle": ["stdev", "from_dh", "to_dh"], "azimuth": ["stdev", "from_dh", "to_dh"],
+                "dh": ["val", "stdev", "dist"], "vec": ["dx", "dy", "dz", "from_dh", "to_dh"]}.items():
+    for _a in _as:
+        DOC_NUMERIC[(_t, _a)] = "double"
+for _t in ("direction", "angle", "z-angle", "azimuth"):
+    DOC_NUMERIC[(_t, "val")] = "angle"
+
+
+def doc_literal_ok(kind, v):
+    """is v a literal of the documented language (finite double; for 'angle' also d-m-s)?"""
+    if FLOAT_RX.match(v):
+        try:
+            return abs(float(v.strip())) != float("inf")
+        except ValueError:
+            return False
+    return kind == "angle" and bool(DMS_RX.match(v))
+
+
+def value_contexts():
+    """(tag, valid attributes, function that wraps the element into a document; the element is alone on its line)"""
+    P = [El("point", [("id", "A"), ("x", "0"), ("y", "0"), ("z", "10")]), El("point", [("id", "B"), ("x", "100"), ("y", "0"), ("z", "12")]),
+         El("point", [("id", "C"), ("x", "0"), ("y", "100"), ("z", "14")])]
+
+    def docw(po_kids, po_attrs=None, net_kids=None, net_attrs=None, root_attrs=None):
+        po = El("points-observations", po_attrs if po_attrs is not None else [("direction-stdev", "10"), ("distance-stdev", "5"),
+                                                                             ("angle-stdev", "10"), ("zenith-angle-stdev", "10"),
+                                                                             ("azimuth-stdev", "10")], [p.clone() for p in P] + po_kids)
+        return El("gama-local", root_attrs if root_attrs is not None else [("xmlns", XMLNS)],
+                  [El("network", net_attrs or [], (net_kids or []) + [po])])
+    cov1 = lambda n: El("cov-mat", [("dim", str(n)), ("band", "0")], text=" ".join(["4"] * n))
+    ctx = []
+    ctx.append(("gama-local", [("xmlns", XMLNS), ("version", "2.0")], lambda e: docw([], root_attrs=e.attrs)))
+    ctx.append(("network", [("axes-xy", "ne"), ("angles", "left-handed"), ("epoch", "2020.5")], lambda e: docw([], net_attrs=e.attrs)))
+    ctx.append(("parameters", [("sigma-apr", "10"), ("conf-pr", "0.95"), ("tol-abs", "1000"), ("sigma-act", "apriori"), ("angular", "400"),
+                               ("algorithm", "gso"), ("cov-band", "-1"), ("latitude", "50"), ("ellipsoid", "wgs84"), ("language", "en"),
+                               ("encoding", "utf-8"), ("angles", "400")], lambda e: docw([], net_kids=[e])))
+    ctx.append(("points-observations", [("distance-stdev", "5 3 1"), ("direction-stdev", "10"), ("angle-stdev", "10"),
+                                        ("zenith-angle-stdev", "10"), ("azimuth-stdev", "10")], lambda e: docw([], po_attrs=e.attrs)))
+    ctx.append(("point", [("id", "D"), ("x", "5"), ("y", "6"), ("z", "7"), ("fix", "xy"), ("adj", "z")], lambda e: docw([e])))
+    ctx.append(("obs", [("from", "A"), ("orientation", "10"), ("from_dh", "1.5")],
+                lambda e: docw([El("obs", e.attrs, [El("distance", [("to", "B"), ("val", "100")])])])))
+    for t, a in [("direction", [("to", "B"), ("val", "10.5"), ("stdev", "10"), ("from_dh", "1"), ("to_dh", "2"), ("extern", "e")]),
+                 ("distance", [("from", "A"), ("to", "B"), ("val", "100"), ("stdev", "5"), ("from_dh", "1"), ("to_dh", "2"), ("extern", "e")]),
+                 ("angle", [("from", "A"), ("bs", "B"), ("fs", "C"), ("val", "100"), ("stdev", "5"), ("from_dh", "1"), ("bs_dh", "2"),
+                            ("fs_dh", "3"), ("extern", "e")]),
+                 ("s-distance", [("from", "A"), ("to", "B"), ("val", "100"), ("stdev", "5"), ("from_dh", "1"), ("to_dh", "2"), ("extern", "e")]),
+                 ("z-angle", [("from", "A"), ("to", "B"), ("val", "98"), ("stdev", "5"), ("from_dh", "1"), ("to_dh", "2"), ("extern", "e")]),
+                 ("azimuth", [("from", "A"), ("to", "B"), ("val", "100"), ("stdev", "5"), ("from_dh", "1"), ("to_dh", "2"), ("extern", "e")])]:
+        ctx.append((t, a, lambda e: docw([El("obs", [("from", "A")], [e])])))
+        ctx.append((t, a, lambda e: docw([El("obs", [], [e])])))                       # no standpoint on <obs>
+        ctx.append((t, a, lambda e: docw([El("obs", [("from", "A")], [e, cov1(1)])])))
+    ctx.append(("dh", [("from", "A"), ("to", "B"), ("val", "2"), ("stdev", "1"), ("dist", "0.1"), ("extern", "e")],
+                lambda e: docw([El("height-differences", [], [e])])))
+    ctx.append(("dh", [("from", "A"), ("to", "B"), ("val", "2"), ("dist", "0.1")],
+                lambda e: docw([El("height-differences", [], [e, cov1(1)])])))
+    ctx.append(("point", [("id", "A"), ("x", "1"), ("y", "2"), ("z", "3")], lambda e: docw([El("coordinates", [], [e, cov1(3)])])))
+    ctx.append(("point", [("id", "A"), ("z", "3")], lambda e: docw([El("coordinates", [("extern", "x")], [e, cov1(1)])])))
+    ctx.append(("point", [("id", "A"), ("x", "1"), ("y", "2")], lambda e: docw([El("coordinates", [], [e, cov1(2)])])))
+    ctx.append(("vec", [("from", "A"), ("to", "B"), ("dx", "100"), ("dy", "0"), ("dz", "2"), ("from_dh", "1"), ("to_dh", "2"), ("extern", "e")],
+                lambda e: docw([El("vectors", [], [e, cov1(3)])])))
+    for n, kids in [(1, lambda: [El("distance", [("to", "B"), ("val", "100")])]),
+                    (2, lambda: [El("distance", [("to", "B"), ("val", "100")]), El("direction", [("to", "C"), ("val", "5")])])]:
+        ctx.append(("cov-mat", [("dim", str(n)), ("band", "0")],
+                    (lambda kids, n: lambda e: docw([El("obs", [("from", "A")], kids() + [El("cov-mat", e.attrs, text=" ".join(["4"] * n))])]))(kids, n)))
+    ctx.append(("cov-mat", [("dim", "3"), ("band", "1")],
+                lambda e: docw([El("vectors", [], [El("vec", [("from", "A"), ("to", "B"), ("dx", "1"), ("dy", "2"), ("dz", "3")]),
+                                                   El("cov-mat", e.attrs, text="4 0.1 4 0.1 4")])])))
+    ctx.append(("coordinates", [("extern", "x")], lambda e: docw([El("coordinates", e.attrs, [El("point", [("id", "A"), ("z", "1")]), cov1(1)])])))
+    return ctx
+
+
+def value_docs(rng, n):
+    """-> list of (label, bytes, split, expect); expect = ('refuse', line) when a documented-numeric attribute got a value
+    outside its documented literal language: the document must be refused with that line"""
+    ctxs = value_contexts()
+    out = []
+    for i in range(n):
+        tag, attrs, wrap = rng.choice(ctxs)
+        attrs = list(attrs)
+        expect = None
+        what = []
+        r = rng.random()
+        if r < 0.08:
+            label_kind = "valid"
+        elif r < 0.16 and attrs:
+            j = rng.randrange(len(attrs))
+            what.append(f"drop {attrs[j][0]}")
+            del attrs[j]
+        else:
+            for _ in range(1 if rng.random() < 0.85 else 2):
+                j = rng.randrange(len(attrs))
+                k, _old = attrs[j]
+                pool = rng.choice([FLOAT_OK, FLOAT_BAD, FLOAT_BAD, INT_POOL, DMS_POOL, RANGE_POOL, ENUM_POOL, ID_POOL, ALL_VALUES])
+                v = rng.choice(pool)
+                attrs[j] = (k, v)
+                what.append(f"{k}={v!r}")
+        if rng.random() < 0.15:
+            rng.shuffle(attrs)
+        el = El(tag, attrs)
+        root = wrap(el)
+        text = doc_text(root)
+        # the line of the element under test: it is the only element with exactly these attributes
+        needle = ser(El(tag, attrs, el.kids, el.text)).split(">")[0] if False else None
+        line = None
+        ser_el = "<" + tag + "".join(f' {k}="{esc(v)}"' for k, v in el.attrs)
+        pos = text.find(ser_el + ">") if (ser_el + ">") in text else text.find(ser_el + "/>")
+        if pos >= 0:
+            line = text.count("\n", 0, pos) + 1
+        bad = [(k, v) for k, v in el.attrs if (tag, k) in DOC_NUMERIC and v != "" and not doc_literal_ok(DOC_NUMERIC[(tag, k)], v)]
+        if tag == "parameters":
+            for k, v in el.attrs:
+                if k == "conf-pr" and FLOAT_RX.match(v):
+                    try:
+                        x = float(v.strip())
+                        if x <= 0 or x >= 1:
+                            bad.append((k, v))
+                    except ValueError:
+                        pass
+        if bad and line is not None and "\n" not in "".join(v for _, v in el.attrs):
+            expect = ("refuse", line, bad[0])
+        out.append((f"value {i}: <{tag}> " + (", ".join(what) or "valid"), text.encode("utf-8"), -1, expect))
+    return out
+
 # ------------------------------------------------------------------ correspondence
 
 def hexs(b):
@@ -399,18 +628,20 @@ def hexs(b):
 def run_docs(ctx, corr, exe, docs, stream):
     """docs: list of (label, bytes, split, expect) ; expect in (None, 'accept')"""
     cases = [[f"doc {hexs(d)} {k}"] for _, d, k, _ in docs]
-    impl, crashes = run_cases(exe, cases, timeout=1200)
+    impl, crashes = run_cases(exe, cases, timeout=3600)
     mcases, keep = [], []
     for i, out in enumerate(impl):
-        ev = []
+        ev, cev = [], []
         for l in out:
             if l.startswith("E "):
                 t = l.split()
                 if (t[1] == "start" and t[4] == "x") or (t[1] == "stop" and t[3] == "x"):
                     break            # an exception left this handler: the event has no result line
                 ev.append(l[2:])
-        mcases.append(ev + ["end"])
-    model, mcr = run_cases(ctx.driver("drv_gkf"), mcases, timeout=1200)
+            elif l.startswith("C "):
+                cev.append(l)        # the same event with the real attribute strings (value model, Gkf.crun)
+        mcases.append(ev + ["end"] + cev + ["cend"])
+    model, mcr = run_cases(ctx.driver("drv_gkf"), mcases, timeout=3600)
     for i, (label, d, k, expect) in enumerate(docs):
         out = impl[i]
         R = [l for l in out if l.startswith("R ")]
@@ -422,13 +653,18 @@ def run_docs(ctx, corr, exe, docs, stream):
         corr.count(f"{stream}_docs")
         payload = {"stream": stream, "label": label, "doc": d.decode("utf-8", "replace"), "split": k}
         if i in crashes:
-            if crashes[i][0] == 88:
-                corr.fail(f"GKFparser does not terminate (10 s limit) on {label}", payload, "GKFparser::startElement", "harness alarm")
+            if is_wall_timeout(crashes[i]):
+                wall_inconclusive(corr, f"event stream batch starting at {label}")
+            elif crashes[i][0] == 88:
+                corr.fail(f"GKFparser does not terminate (10 s CPU-time limit) on {label}", payload, "GKFparser::startElement", "harness CPU timer")
             else:
                 corr.fail(f"parser harness crashed/sanitizer report on {label}", payload, "GKFparser", crashes[i][1])
             continue
         if i in mcr:
-            corr.disagree(stream, [label], out[-3:], model[i][-3:], "model driver crashed: " + mcr[i][1][-300:])
+            if is_wall_timeout(mcr[i]):
+                wall_inconclusive(corr, f"model driver batch starting at {label}")
+            else:
+                corr.disagree(stream, [label], out[-3:], model[i][-3:], "model driver crashed: " + mcr[i][1][-300:])
             continue
         if not O:
             corr.disagree(stream, [label], out[-3:], model[i][-3:], "no outcome line from the harness")
@@ -453,6 +689,17 @@ def run_docs(ctx, corr, exe, docs, stream):
                           mR[max(0, j - 2):j + 1], "state/error after an event differs")
         elif not expat_err and mO != O:
             corr.disagree(stream, payload, O, mO, "outcome differs")
+        # ---- the value model: same events with the real attribute strings; the dataOk bit is COMPUTED (only `pd` is input)
+        vR = ["R" + l[2:] for l in model[i] if l.startswith("VR ")]
+        vO = ["O" + l[2:] for l in model[i] if l.startswith("VO ")]
+        corr.count("value_model_docs")
+        if vR != R:
+            j = next((j for j in range(min(len(R), len(vR))) if R[j] != vR[j]), min(len(R), len(vR)))
+            cl = [l for l in mcases[i] if l.startswith("C ")]
+            corr.disagree(stream + "-values", payload, {"event": cl[j] if j < len(cl) else None, "index": j, "R": R[max(0, j - 2):j + 1]},
+                          vR[max(0, j - 2):j + 1], "value model: state/error after an event differs (dataOk computed from the attribute strings)")
+        elif not expat_err and vO != O:
+            corr.disagree(stream + "-values", payload, O, vO, "value model: outcome differs")
         # ---- oracle on the implementation's own answers
         if O[0].startswith("O parser"):
             line = int(O[0].split()[2])
@@ -463,6 +710,12 @@ def run_docs(ctx, corr, exe, docs, stream):
                       "GKFparser::process_coords_point", "\n".join(l for l in out if l.startswith("M ")))
         if expect == "accept" and O[0] != "O ok":
             corr.fail(f"grammar-derived document refused ({O[0]}) : {label}", payload, "GKFparser", "\n".join(out[-4:]))
+        if isinstance(expect, tuple) and expect[0] == "refuse":
+            corr.count("value_docs_expect_refusal")
+            want = f"O parser {expect[1]} -1"
+            if O[0] != want:
+                corr.fail(f"attribute {expect[2][0]}={expect[2][1]!r} is outside the documented literal language/range but the answer is "
+                          f"{O[0]} instead of a refusal naming line {expect[1]} : {label}", payload, "GKFparser::process_*", "\n".join(out[-4:]))
 
 
 LIT_ALPHABET = b"019+-.eE x"
@@ -495,12 +748,16 @@ def run_literals(ctx, corr, exe):
         e = ctx.rng.choice([308, 309, 307, 300, 310, 290, 320, 999, -400, 0]) - (len(m) - 1 if ctx.rng.random() < 0.8 else 0) + (len(m) - k)
         rnd.append((m[:k] + ctx.rng.choice([".", "", "."]) + m[k:] + ctx.rng.choice(["e", "E"]) + ctx.rng.choice(["", "+"] if e >= 0 else [""]) + str(e)).encode())
     cases.append([f"lit {hexs(s)}" for s in rnd])
-    impl, crashes = run_cases(exe, cases, timeout=1200)
-    model, mcr = run_cases(ctx.driver("drv_gkf"), cases, timeout=1200)
+    impl, crashes = run_cases(exe, cases, timeout=3600)
+    model, mcr = run_cases(ctx.driver("drv_gkf"), cases, timeout=3600)
     tot = acc = 0
     for i, c in enumerate(cases):
         if i in crashes:
-            corr.fail("literal recogniser crashed (sanitizer)", {"stream": "literals", "ops": c[:3]}, "IsFloat/deg2gon", crashes[i][1])
+            if is_wall_timeout(crashes[i]):
+                wall_inconclusive(corr, "literal stream")
+                continue
+            corr.fail("literal recogniser crashed (sanitizer)", {"stream": "literals", "label": "literal ops " + " ".join(c[:2])[:80], "ops": c[:3]},
+                      "IsFloat/deg2gon", crashes[i][1])
             continue
         a = [x for l in impl[i] for x in l.split()]
         b = [x for l in model[i] for x in l.split()]
@@ -573,12 +830,15 @@ def run_cov(ctx, corr, exe):
                f'<cov-mat dim="{sdim}" band="{sband}">{text}</cov-mat></height-differences></points-observations></network></gama-local>')
         docs.append(doc.encode())
         mops.append(f"cov {hexs(sdim.encode())} {hexs(sband.encode())} {hexs(text.encode())}")
-    impl, crashes = run_cases(exe, [[f"doc {hexs(d)} -1"] for d in docs], timeout=900)
-    model, _ = run_cases(ctx.driver("drv_gkf"), [[m] for m in mops], timeout=900)
+    impl, crashes = run_cases(exe, [[f"doc {hexs(d)} -1"] for d in docs], timeout=3600)
+    model, _ = run_cases(ctx.driver("drv_gkf"), [[m] for m in mops], timeout=3600)
     for i, (sdim, sband, text, ndh) in enumerate(items):
         corr.case(key=("cov", sdim, sband, text))
         payload = {"stream": "cov", "dim": sdim, "band": sband, "text": text, "doc": docs[i].decode()}
         if i in crashes:
+            if is_wall_timeout(crashes[i]):
+                wall_inconclusive(corr, "cov stream")
+                continue
             corr.fail("cov-mat document crashed the parser (sanitizer)", payload, "GKFparser::finish_cov", crashes[i][1])
             continue
         msgs = [l[2:] for l in impl[i] if l.startswith("M ")]
@@ -692,9 +952,8 @@ def result_bases(ctx, n_gen, n_arch):
             g, x, h = Path(td) / f"{k}.gkf", Path(td) / f"{k}.xml", Path(td) / f"{k}.html"
             g.write_bytes(data)
             band = rng.choice([(), ("--cov-band", "0"), ("--cov-band", "1"), ("--cov-band", "-1")])
-            try:
-                sh([str(gl), str(g), "--xml", str(x), "--html", str(h), "--text", "/dev/null"] + list(band), timeout=30)
-            except subprocess.TimeoutExpired:
+            rc_, _o, _e = sh_cpu([str(gl), str(g), "--xml", str(x), "--html", str(h), "--text", "/dev/null"] + list(band))
+            if rc_ in ("cpu", "wall"):
                 continue
             if x.exists() and b"<cov-mat>" in x.read_bytes():
                 out.append((name, x.read_bytes(), h.read_bytes() if h.exists() else None))
@@ -703,10 +962,12 @@ def result_bases(ctx, n_gen, n_arch):
 
 def reader_verdict(out, crash):
     """oracle on one harness answer -> None or (what, site)"""
+    if is_wall_timeout(crash):
+        return None       # wall clock of the batch expired (loaded machine): says nothing about this document
     if crash is not None:
         rc, err = crash
         if rc == 88:
-            return ("does not terminate (10 s limit)", "reader")
+            return ("does not terminate (10 s CPU-time limit)", "reader")
         m = re.search(r"SUMMARY: \w+: (\S+)", err or "")
         fr = re.findall(r"#\d+ 0x[0-9a-f]+ in (\S+)", err or "")
         site = next((x for x in fr if x.startswith("GNU_gama")), fr[0] if fr else "")
@@ -731,7 +992,7 @@ def readers_exe(ctx):
 
 def reader_run_one(exe, op, b):
     """one document through the reader harness -> oracle verdict (None = fine)"""
-    outs, crashes = run_cases(exe, [[f"{op} {hexs(b)}"]], timeout=60)
+    outs, crashes = run_cases(exe, [[f"{op} {hexs(b)}"]], timeout=3600)
     return reader_verdict(outs[0], crashes.get(0)), (crashes[0][1] if 0 in crashes else "\n".join(outs[0][-2:]))
 
 
@@ -811,7 +1072,7 @@ def run_readers(ctx, corr):
         for _ in range(ctx.size(8, 200)):
             items.append(("g3", f"g3 {nm}: byte mutation", byte_mutation(rng, b), False))
     cases = [[f"{op} {hexs(b)}"] for op, _, b, _ in items]
-    outs, crashes = run_cases(exe, cases, timeout=1500)
+    outs, crashes = run_cases(exe, cases, timeout=3600)
     for i, (op, label, b, expect_ok) in enumerate(items):
         corr.case(key=("reader", op, sha(b)) if len(b) > 200 else None,
                   sample={"stream": "readers", "op": op, "label": label, "out": outs[i][:1]} if i < 1 else None)
@@ -863,10 +1124,7 @@ def run_readers(ctx, corr):
             a.write_bytes(good)
             b2.write_bytes(bad)
             args = [str(d / tool), str(a), str(b2)] + (["--text", "/dev/null"] if tool == "gama-local-deformation" else [])
-            try:
-                rc, out, err = sh(args, timeout=10)
-            except subprocess.TimeoutExpired:
-                return it, "timeout", ""
+            rc, out, err = sh_cpu(args)
             return it, rc, err
     with concurrent.futures.ThreadPoolExecutor(max_workers=16) as ex:
         res = list(ex.map(one, cons))
@@ -874,8 +1132,11 @@ def run_readers(ctx, corr):
         corr.case(key=("consumer", tool, sha(bad)))
         corr.count(f"consumer_{tool}_rc_{rc}")
         what = None
-        if rc == "timeout":
-            what = "does not terminate (10 s)"
+        if rc == "wall":
+            wall_inconclusive(corr, f"{tool} [{label}]")
+            continue
+        if rc == "cpu":
+            what = f"does not terminate ({CPU_LIMIT} s CPU-time limit)"
         elif SAN_MARK.search(err) or rc in (86, 87):
             m = re.search(r"SUMMARY: \w+: (\S+)", err)
             what = f"sanitizer report rc={rc}: " + (m.group(1) if m else (re.search(r"runtime error: ([^\n]*)", err) or [0, "?"])[1])
@@ -900,24 +1161,22 @@ def run_readers(ctx, corr):
 SAN_MARK = re.compile(r"ERROR: AddressSanitizer|runtime error:|ERROR: LeakSanitizer|AddressSanitizer:DEADLYSIGNAL|UndefinedBehaviorSanitizer")
 
 
-def run_gama(gl, data, extra=(), timeout=10):
+def run_gama(gl, data, extra=(), timeout=None):
     with tempfile.NamedTemporaryFile(prefix="c11_", suffix=".gkf", delete=False) as f:
         f.write(data)
         name = f.name
     try:
-        try:
-            rc, out, err = sh([str(gl), name, "--text", "/dev/null", "--xml", "/dev/null"] + list(extra), timeout=timeout)
-        except subprocess.TimeoutExpired:
-            return "timeout", "", ""
-        return rc, out, err
+        return sh_cpu([str(gl), name, "--text", "/dev/null", "--xml", "/dev/null"] + list(extra))
     finally:
         os.unlink(name)
 
 
 def judge(rc, out, err):
     """-> None if fine, else (what, site)"""
-    if rc == "timeout":
-        return ("does not terminate within the time limit", "gama-local")
+    if rc == "wall":
+        return None       # wall clock expired before the CPU limit: says nothing about termination (counted by the caller)
+    if rc == "cpu":
+        return (f"does not terminate within the CPU-time limit ({CPU_LIMIT} s)", "gama-local")
     if SAN_MARK.search(err) or rc in (86, 87) or (isinstance(rc, int) and rc < 0):
         m = re.search(r"SUMMARY: \w+: (\S+) (\S+)", err)
         site = ""
@@ -1057,6 +1316,8 @@ def exec_oracle(ctx, corr, inputs):
     for i, lab, d, extra, rc, verdict, err in results:
         corr.case(key=("exec", sha(d)) if len(d) > 40 else None)
         corr.count("exec_rc_%s" % rc)
+        if rc == "wall":
+            wall_inconclusive(corr, f"gama-local [{lab}]")
         if verdict:
             corr.fail(f"gama-local: {verdict[0]} [{lab}]", {"stream": "exec", "label": lab, "options": list(extra),
                                                             "doc": d.decode("utf-8", "replace"), "doc_hex": d.hex() if len(d) < 20000 else None},
@@ -1066,6 +1327,7 @@ def exec_oracle(ctx, corr, inputs):
 
 
 def correspond(ctx, corr):
+    decorate_failures(ctx, corr)
     d = ctx.build_gama(sanitize=True)
     objs = sorted(_glob.glob(str(d / "CMakeFiles" / "libgama.dir" / "**" / "*.o"), recursive=True))
     exe = ctx.build_cpp("c11_gkf", [ctx.verif / "harness" / "c11_gkf.cpp"], includes=[ctx.verif / "harness"], libs=objs + ["-lexpat"])
@@ -1102,8 +1364,10 @@ def correspond(ctx, corr):
                 docs.append((f"allsplits {j}", b, k, "accept"))
             for k in range(0, len(mb) + 1):
                 docs.append((f"allsplits mutated {j}: {what}", mb, k, None))
+    vd = value_docs(rng, ctx.size(1500, 15000))
+    docs += vd
     run_docs(ctx, corr, exe, docs, "events")
-    ctx.log(f"event correspondence: {len(docs)} documents")
+    ctx.log(f"event correspondence: {len(docs)} documents ({len(vd)} with attribute values from the literal languages and their complements)")
     n = run_literals(ctx, corr, exe)
     ctx.log(f"literal correspondence: {n} strings")
     run_cov(ctx, corr, exe)
@@ -1123,6 +1387,7 @@ def correspond(ctx, corr):
 def search(ctx, broken, corr):
     """a proof / translator / correspondence broke and no failing input is known yet: look harder on the executable"""
     c2 = Corr()
+    decorate_failures(ctx, c2)
     exec_oracle(ctx, c2, exec_inputs(ctx, thorough_override=True))
     return c2.failures
 
